@@ -1714,3 +1714,68 @@ func init() {
 		}),
 	)
 }
+
+func init() {
+	extend("C01", "R01e (added after a seeded change was missed): the ascending and the descending branch of the range traversal prune identically — the descent into the left child sits behind one and the same condition in both branches, and so does the descent into the right child (otherwise a range yields different key sets in the two directions).",
+		rule("R01e", "range traversal: both directions prune with the same conditions", 2, func(r *Run) {
+			f := r.Fn(mdbN + "traverseInRange")
+			if f == nil {
+				return
+			}
+			c := f.Ctx()
+			conds := map[string]map[string]int{"left": {}, "right": {}}
+			ast.Inspect(f.Body(), func(x ast.Node) bool {
+				call, ok := x.(*ast.CallExpr)
+				if !ok {
+					return true
+				}
+				fn := core.Callee(c.Info, call)
+				if fn == nil || core.ShortName(fn) != mdbN+"traverseInRange" {
+					return true
+				}
+				sel, ok := ast.Unparen(call.Fun).(*ast.SelectorExpr)
+				if !ok {
+					return true
+				}
+				side := ""
+				switch {
+				case core.CallsAny(mdbN+"getLeftNode")(c, sel.X) || core.Mentions(mdb+"Node.leftNode")(c, sel.X):
+					side = "left"
+				case core.CallsAny(mdbN+"getRightNode")(c, sel.X) || core.Mentions(mdb+"Node.rightNode")(c, sel.X):
+					side = "right"
+				default:
+					return true
+				}
+				// innermost enclosing if whose body contains the call
+				cond := "(unconditional)"
+				for p := r.W.Parent(call); p != nil; p = r.W.Parent(p) {
+					if is, ok := p.(*ast.IfStmt); ok && call.Pos() >= is.Body.Pos() && call.End() <= is.Body.End() {
+						// the direction test itself is not a pruning condition
+						if id, ok := ast.Unparen(is.Cond).(*ast.Ident); ok && core.IsObj("param:3")(c, id) {
+							continue
+						}
+						cond = core.CanonExpr(c, is.Cond)
+						break
+					}
+					if _, isFn := p.(*ast.FuncDecl); isFn {
+						break
+					}
+				}
+				conds[side][cond]++
+				return true
+			})
+			for _, side := range []string{"left", "right"} {
+				label := fmt.Sprintf("%s: the descent into the %s child is guarded identically in both directions", f.Name, side)
+				total := 0
+				for _, n := range conds[side] {
+					total += n
+				}
+				if len(conds[side]) == 1 && total >= 2 {
+					r.OK(label, r.W.Pos(f.Node().Pos()), fmt.Sprintf("%d descents, one condition: %v", total, keysOf(conds[side])))
+				} else {
+					r.Fail(label, r.W.Pos(f.Node().Pos()), fmt.Sprintf("conditions differ between the branches: %v", keysOf(conds[side])))
+				}
+			}
+		}),
+	)
+}
